@@ -1,6 +1,8 @@
 """C13 - generated LR(1) parsers recognise exactly their grammar."""
 import itertools
 
+import sys
+
 from .. import harness
 from ..ref import cfg, lr
 from . import common
@@ -84,7 +86,7 @@ def cyclic(rules, nnt):
     return False
 
 
-def work(spec):
+def _work(spec):
     part = harness.new_partial()
     rnd = common.rng(spec["seed"], "C13", spec["chunk"])
     metas = []
@@ -162,5 +164,21 @@ def work(spec):
     return part
 
 
+
+
+def work(spec):
+    part = _work(spec)
+    for v in part["violations"]:
+        if isinstance(v.get("case"), dict):
+            v["case"]["spec"] = spec
+    return part
+
+
 def replay(case):
-    return []
+    """re-run the chunk the stored case came from and report the violations with the same signature family"""
+    if "spec" not in case:
+        return []
+    from .. import harness as _h
+    if hasattr(sys.modules[__name__], "plan") and case["spec"].get("kind") in ("seq", "conc"):
+        plan("quick", case["spec"].get("seed", 1))   # C18: baselines are computed in plan()
+    return _work(case["spec"])["violations"]
